@@ -28,6 +28,14 @@ CLAIMED = {
   text="Store.tla defines the restorer views (RestorePeer, ActivePeers, RestoreAll, RestoreChannel, raw keys) as functions of the set of live channels; TLC dumps the complete reachable graph of create (every peer list / parent) / advance / remove over 2-3 channel ids incl. re-creation. Every edge is executed on a real keyvalue.PersistRestorer (memorydb; LevelDB in thorough) and after every step all views and the raw key listing are compared with the model and every restored channel with its own live machine (collect-then-use, as the client does). One channel has 10 participants (signature-key width).",
   note="Trusted: TLC, harness comparison. Bounds: 3 ids x 1-2 machine steps, 2 ids x 9 steps, 3 peers.", ref="5/C11",
   technique="explicit TLA+ spec (Store.tla), TLC exhaustive state graph, every transition replayed on the real persister with all restorer views compared"),
+ "C20": dict(
+  text="Multi.tla models multi.Adjudicator.dispatch and multi.Funder.Fund: one sub-call per distinct (backend, ledger) of the asset list in first-occurrence order, any completion order, error as soon as a failed or missing ledger is collected, egoistic ledger only after all others succeeded; TLC checks AtMostOnce/SuccessSound/EgoLast and enumerates every scenario (asset lists with repetitions and a non-multi asset x registered subsets x failing subsets x method) x every completion order. Each behaviour is replayed in a synctest bubble on the real code with per-ledger adjudicators/funders blocking on gates opened in the TLC-chosen order; per-ledger call states/counts and the result are compared after every step.",
+  note="Trusted: TLC, synctest quiescence, harness fakes. Bounds: 3 ledgers on 2 backends, lists <= 3 (4 thorough). A result reported later than specified (but equal) counts as conformance drift, not as violation.", ref="5/C20",
+  technique="explicit TLA+ spec (Multi.tla), TLC exhaustive state graph incl. all completion orders, every behaviour replayed on the real code with gated sub-calls"),
+ "C05": dict(
+  text="Watcher.tla states the property's rule directly (when to refute, with which parent/sub-channel/archived versions in which order, when to relay, refused stop). TLC checks OneCall/CallNewest/RelayIncreasing/RefusedStopKeeps and dumps the complete reachable graph for one sub-channel; every edge is replayed after its shortest path, plus TLC-simulated behaviours with two sub-channels, in synctest bubbles on the real local.Watcher with a scripted RegisterSubscriber: Register arguments, events on every AdjudicatorSub and API results are compared with the model after every step; leftover blocked goroutines and panics are violations.",
+  note="Trusted: TLC, synctest quiescence (virtual 1 ms drain timer), harness fakes. Bounds: versions <= 2 (3 thorough), 1 sub-channel exhaustively, 2 by simulation; steps separated by quiescence.", ref="5/C05",
+  technique="explicit TLA+ spec (Watcher.tla), TLC exhaustive state graph + simulated behaviours, every behaviour replayed on the real watcher with outputs compared per step"),
 }
 NA_REASON = "check not built yet (work in progress, see DESIGN.md section 11); not a statement that the technique cannot apply"
 checks = []
